@@ -151,7 +151,7 @@ Definition sel_vres (s : sel) (t : ty) (each_absent : bool) : vres :=
   | SMany l => if each_absent then VAbsent (TArray t) else VOk (VArray t l)
   end.
 
-Fixpoint ty_index_spec (t : ty) (idx : list index) : option ty :=
+Fixpoint ty_index_spec (t : ty) (idx : list index) {struct idx} : option ty :=
   match idx with
   | [] => Some t
   | i :: r =>
@@ -250,7 +250,10 @@ with denote_ident (sch : scheme) (e : iexpr) (c : ctx) {struct e} : option (opti
       end
   | ICall fn a idx =>
       match fn_of sch fn, denote_args sch a c with
-      | Some d, Some (first_mapped, first_ty, vs) =>
+      | Some d, Some ds =>
+          let vs := map snd ds in
+          let first_mapped := match ds with (m, _, _) :: _ => m | [] => None end in
+          let first_ty := match ds with (_, t, _) :: _ => Some t | [] => None end in
           let defaults :=
             if fn_variadic_same d then []
             else map (fun p => VOk (snd p)) (skipn (length vs - length (fn_params d)) (fn_opt_params d)) in
@@ -277,15 +280,16 @@ with denote_ident (sch : scheme) (e : iexpr) (c : ctx) {struct e} : option (opti
       | _, _ => None
       end
   end
-(* arguments: the evaluated values, and for a first argument with [*] the
-   elements it maps over ([Some None] = its container is absent) *)
+(* arguments, in source order: (mapping, static type, value) of each; the
+   mapping of an argument with [*] is the list of elements it maps over
+   ([Some None] = its container is absent) *)
 with denote_args (sch : scheme) (a : args) (c : ctx) {struct a}
-  : option (option (option (list value)) * option ty * list vres) :=
+  : option (list (option (option (list value)) * ty * vres)) :=
   match a with
-  | ANil => Some (None, None, [])
+  | ANil => Some []
   | ACons x r =>
       match denote_arg sch x c, denote_args sch r c with
-      | Some (m, t, v), Some (_, _, vs) => Some (m, Some t, v :: vs)
+      | Some d, Some ds => Some (d :: ds)
       | _, _ => None
       end
   end
